@@ -266,6 +266,7 @@ class Model:
         self.interrupts: dict[str, list[str]] = {}   # run id -> kinds of interruption (disc/restart) that happened while it was the engine's run
         self.reopened: list[str] = []            # runs whose run_started was delivered again after they were stopped/superseded
         self.misclosed: list[str] = []           # runs during which a run_stopped of ANOTHER run id was delivered
+        self.misclosed_restarted: list[str] = []  # ... and whose run_started was delivered again afterwards
         self.reports: set[tuple[str, float]] = set()  # (tag, t) delivered in any TagsUpdatedMsg
         self.last_report: dict[str, float] = {}
         self.clock = T0
@@ -275,6 +276,7 @@ class Model:
         return dict(registered=self.registered, connected=self.connected, uod_since_reg=self.uod_since_reg,
                     eng_run=self.eng_run, started=list(self.started), stopped=list(self.stopped),
                     superseded=list(self.superseded), reopened=list(self.reopened), misclosed=list(self.misclosed),
+                    misclosed_restarted=list(self.misclosed_restarted),
                     interrupts={k: list(v) for k, v in self.interrupts.items()},
                     clock=self.clock)
 
@@ -405,6 +407,8 @@ class Sys:
         if ev in ("rs1", "rs2"):
             rid = "r" + ev[-1]
             r = self._send(EM.RunStartedMsg(run_id=rid, started_tick=RUNS[rid]))
+            if rid in m.misclosed and rid not in m.misclosed_restarted:
+                m.misclosed_restarted.append(rid)
             if rid not in m.started:
                 m.started.append(rid)
             elif (rid in m.stopped or rid in m.superseded) and m.eng_run != rid and rid not in m.reopened:
@@ -533,7 +537,7 @@ def canon(s: Sys):
     dbk = (plot_logs, entries, values,
            tuple(r[1:] for r in db["recent_runs"]), tuple(r[1:] for r in db["recent_engines"]),
            tuple(tuple(x) for x in db["run_children"]))
-    mk = (m.bounces, m.registered, m.connected, m.uod_since_reg, m.eng_run, tuple(m.started), tuple(m.stopped), tuple(m.superseded), tuple(m.reopened), tuple(m.misclosed),
+    mk = (m.bounces, m.registered, m.connected, m.uod_since_reg, m.eng_run, tuple(m.started), tuple(m.stopped), tuple(m.superseded), tuple(m.reopened), tuple(m.misclosed), tuple(m.misclosed_restarted),
           tuple(sorted((k, tuple(v)) for k, v in m.interrupts.items())),
           tuple(sorted((tag, rel(t)) for tag, t in m.reports)),
           tuple(sorted((tag, rel(t)) for tag, t in m.last_report.items())))
